@@ -81,17 +81,17 @@ def build_pool():
     for name in ("xyz", "pdb", "mol2", "sdf"):
         pool.append((f"dump_many:{name}", dumper(name, True)))
 
-    def wf_dumper(target, conv):
+    def wf_dumper(target, conv, shellset=None):
         def call(work):
             from iodata import dump_one
             from props import wfn
 
             case = {n: m[0] for n, m in wfn.SPACE}
             case["conventions"] = conv
-            case["shellset"] = "+f-cart" if target in ("wfn", "wfx") else "+d-cart"
+            case["shellset"] = shellset or ("+f-cart" if target in ("wfn", "wfx") else "+d-cart")
             case["extras"] = "rdm-scf"
             obj, _ = wfn.build(case, target, 0)
-            path = os.path.join(work, f"{conv}_" + wfn.TARGETS[target])
+            path = os.path.join(work, f"{conv}_{shellset}_" + wfn.TARGETS[target])
             dump_one(obj, path)
             with open(path, "rb") as fh:
                 return hashlib.blake2b(fh.read(), digest_size=12).hexdigest()
@@ -101,6 +101,9 @@ def build_pool():
     for target in ("fchk", "molden", "molekel", "wfn", "wfx"):
         for conv in ("own", "horton2", "scr1"):
             pool.append((f"dump_one:{target}:conventions={conv}", wf_dumper(target, conv)))
+    # the same writer on bases of another make-up (pure / no d and f functions): what one dump derives from its basis must not reach the next
+    for target, shellset in (("molden", "+d-pure"), ("molden", "sp"), ("molden", "+f-pure"), ("molekel", "+d-pure"), ("molekel", "sp"), ("fchk", "+d-pure"), ("fchk", "sp")):
+        pool.append((f"dump_one:{target}:shellset={shellset}", wf_dumper(target, "own", shellset)))
 
     def inputs(prog):
         def call(work):
